@@ -274,14 +274,25 @@ def isAdskSpecial (name : Str) : Bool :=
   | 42 :: r => !r.isEmpty && !(r.any XrefTables.invalidNameChars.contains)
   | _ => false
 
-/-- `_Transfer.add_layer_entry` -/
+/-- `validator.is_valid_layer_name` (names without backslash): the check behind `layer.dxf.name = …` -/
+def validLayerName (n : Str) : Bool := isAdskSpecial n || !(n.any XrefTables.invalidNameChars.contains)
+
+/-- assigning a NEW name to a layer runs the attribute validator: an invalid name raises DXFValueError -/
+def checkedLayer (name : Str) : Decision → Decision
+  | .add n => if n = name || validLayerName n then .add n else .error
+  | d => d
+
+/-- `_Transfer.add_layer_entry`.  `XrefTables.specialLayerAddedUnchanged` is probed on the real code: `false` = the
+    code as found, where a special layer that is missing in the target goes through the renaming policy -/
 def addLayerEntry (pol : Policy) (xref : Str) (t : Table) (name : Str) : Decision :=
   let u := upper name
   if XrefTables.specialLayers.contains u || isAdskSpecial u then
     match t.get? u with
     | some h => .useExisting h
-    | none => addTableEntry pol xref t name
-  else addTableEntry pol xref t name
+    | none =>
+      if XrefTables.specialLayerAddedUnchanged then .add name
+      else checkedLayer name (addTableEntry pol xref t name)
+  else checkedLayer name (addTableEntry pol xref t name)
 
 /-- `_Transfer.add_linetype_entry` -/
 def addLinetypeEntry (pol : Policy) (xref : Str) (t : Table) (name : Str) : Decision :=
@@ -354,6 +365,7 @@ structure Node where
 abbrev Db := List Node
 def Db.find (db : Db) (h : Nat) : Option Node := List.find? (fun n => n.handle = h) db
 def Db.handles (db : Db) : List Nat := db.map (·.handle)
+def Db.kinds (db : Db) : List (Nat × Kind) := db.map fun n => (n.handle, n.kind)
 def Db.upd (db : Db) (h : Nat) (f : Node → Node) : Db := db.map fun n => if n.handle = h then f n else n
 
 /-- both documents; the transfer is written in state-passing style over BOTH so that "the source is unchanged"
@@ -369,7 +381,7 @@ inductive Err where
   deriving Repr, DecidableEq
 
 abbrev Sigma := List (Nat × Nat)       -- CopyMachine.handle_mapping in insertion order
-def Sigma.get (σ : Sigma) (h : Nat) : Nat := (σ.lookup h).getD 0
+def Sigma.get (σ : Sigma) (h : Nat) : Nat := match σ.find? (fun e => e.1 = h) with | some e => e.2 | none => 0
 def Sigma.range (σ : Sigma) : List Nat := σ.map (·.2)
 
 /-- `CopyMachine.copy_block` for one registered source node: the clone as `entity.copy()` + `factory.bind` leave
@@ -435,17 +447,18 @@ def registerPhase (guards discards : Bool) :
 /-- `redirect_handle_mapping`: σ(s) := repl(σ(s)) where the copy was replaced by an existing target entity; the
     mapping of a discarded copy without replacement is removed (a pointer to it becomes null) -/
 def redirect (σ repl : Sigma) (dead : List Nat) : Sigma :=
-  σ.map fun (s, t) => match repl.lookup t with
-    | some e => (s, e)
-    | none => if dead.contains t then (s, 0) else (s, t)
+  σ.map fun e => match repl.find? (fun r => r.1 = e.2) with
+    | some r => (e.1, r.2)
+    | none => if dead.contains e.2 then (e.1, 0) else e
 
 /-- phase 3 (`map_object_resources` / `map_entity_resources`), per clone: the pointer fields of the source entity
-    translated through the redirected mapping; unknown handles become 0.  Writes go to the TARGET only. -/
-def mapPhase (d : Docs) (σ0 σ : Sigma) (dead : List Nat) : Docs :=
+    translated through the redirected mapping; unknown handles become 0.  Clones in `skip` (the table-entry copies
+    destroyed in phase 2, `clone.is_alive == False`) are not mapped.  Writes go to the TARGET only. -/
+def mapPhase (d : Docs) (σ0 σ : Sigma) (skip : List Nat) : Docs :=
   { d with tgt := d.tgt.map fun n =>
       match σ0.find? (fun e => e.2 = n.handle) with
       | some (s, _) =>
-        if dead.contains n.handle then n else
+        if skip.contains n.handle then n else
         match d.src.find s with
         | some sn => { n with ptrs := sn.ptrs.map σ.get }
         | none => n
@@ -454,17 +467,45 @@ def mapPhase (d : Docs) (σ0 σ : Sigma) (dead : List Nat) : Docs :=
 /-- `finalize`: `entitydb.purge()` removes the destroyed copies -/
 def purge (d : Docs) (dead : List Nat) : Docs := { d with tgt := d.tgt.filter fun n => !dead.contains n.handle }
 
-/-- the whole transfer for a given allocation `σ` and the decisions `regs` of §4 -/
-def transfer (guards discards : Bool) (d : Docs) (σ : Sigma) (regs : List (Nat × Reg)) : Except Err (Docs × Sigma) :=
+/-- the copies that are gone after `finalize`: the table-entry copies replaced by an existing entry (keys of `repl`,
+    destroyed at once) and the copied content of kept block definitions unless a loading command `placed` it into a
+    layout (their owner is then set; `finalize` destroys only copies that are still unowned) -/
+def purgeList (dead : List Nat) (repl : Sigma) (placed : List Nat) : List Nat :=
+  dead.filter fun h => (repl.map (·.1)).contains h || !placed.contains h
+
+/-- the whole transfer for a given allocation `σ`, the decisions `regs` of §4 and the clone handles `placed` into
+    layouts by the loading commands -/
+def transfer (guards discards : Bool) (d : Docs) (σ : Sigma) (regs : List (Nat × Reg)) (placed : List Nat := []) :
+    Except Err (Docs × Sigma) :=
   let d1 := copyPhase d σ
   match registerPhase guards discards d1 σ [] [] regs with
   | .error x => .error x
   | .ok (d2, dead, repl) =>
     let σ' := redirect σ repl dead
-    .ok (purge (mapPhase d2 σ σ' dead) dead, σ')
+    .ok (purge (mapPhase d2 σ σ' (repl.map (·.1))) (purgeList dead repl placed), σ')
 
 /-- the defect found in `Layer.map_resources`: the mapped value is written to `self` (the SOURCE entity) -/
 def mapPhaseUnfixedLayer (d : Docs) (σ : Sigma) (s : Nat) : Docs :=
   { d with src := d.src.upd s fun n => { n with ptrs := n.ptrs.map σ.get } }
+
+/-! ### vocabulary of the §5 theorems -/
+
+/-- the allocation `σ` made by `CopyMachine`: every registered handle is a source entity, the assigned handles are
+    new in the target, not null, and pairwise distinct (σ is injective); every source handle is registered once -/
+structure WF (d : Docs) (σ : Sigma) : Prop where
+  keys_in_src : ∀ e ∈ σ, (d.src.find e.1).isSome = true
+  vals_fresh : ∀ e ∈ σ, e.2 ∉ d.tgt.handles
+  vals_nonzero : ∀ e ∈ σ, e.2 ≠ 0
+  vals_nodup : (σ.map (·.2)).Nodup
+  keys_nodup : (σ.map (·.1)).Nodup
+  no_null_node : 0 ∉ d.tgt.handles
+
+/-- a `keepExisting e` decision names an entry of the target (what §4 `useExisting` returns) -/
+def RegsOk (d : Docs) (regs : List (Nat × Reg)) : Prop :=
+  ∀ x ∈ regs, ∀ e, x.2 = Reg.keepExisting e → e ∈ d.tgt.handles
+
+/-- the registry is closed: every pointer of a registered source entity is null or registered -/
+def RegistryClosed (d : Docs) (σ : Sigma) : Prop :=
+  ∀ e ∈ σ, ∀ sn, d.src.find e.1 = some sn → ∀ q ∈ sn.ptrs, q = 0 ∨ q ∈ σ.map (·.1)
 
 end EzdxfVerif.Xref
